@@ -1,11 +1,11 @@
 ----------------------------- MODULE ServoTrace -----------------------------
 EXTENDS Servo, Json, IOUtils
 Traces == JsonDeserialize(IOEnv.TRACE_FILE)   \* [{id, side, cal, ev: [{act, v, angle, pulse, cmd:{op,v}, res}...]}...]
-VARIABLES tid, l, bad
+VARIABLES tid, l, bad, known
 T == Traces[tid]
 InvDiff(c, a, p, tol) == IF ~InBounds(c, a, p, tol) THEN "inv-out-of-bounds"
                          ELSE IF ~Corresponds(c, a, p, tol + 1) THEN "inv-angle-pulse-correspondence" ELSE ""
-TInit == /\ tid \in 1..Len(Traces) /\ l = 1 /\ bad = ""
+TInit == /\ tid \in 1..Len(Traces) /\ l = 1 /\ bad = "" /\ known = {}
          /\ side = Traces[tid].side /\ cal = Traces[tid].cal
          /\ angle = cal.mina /\ pulse = cal.minp /\ cmd = NoCmd /\ res = "init" /\ last = NoCall
 TNext == /\ bad = "" /\ l <= Len(T.ev)
@@ -16,9 +16,11 @@ TNext == /\ bad = "" /\ l <= Len(T.ev)
                 d == IF e.act = "init"
                      THEN (IF Abs(e.angle - cal.mina) <= tol /\ Abs(e.pulse - cal.minp) <= tol THEN "" ELSE "initial-state")
                      ELSE StepDiff(side, cal, Cur, k, t, e.cmd, e.res)
+                kn == d = "device-command" /\ KnownNegativeRound(side, cal, k, t, e.cmd, e.res)
             IN /\ angle' = e.angle /\ pulse' = e.pulse /\ cmd' = e.cmd /\ res' = e.res /\ last' = k
-               /\ bad' = IF d # "" THEN d ELSE InvDiff(cal, e.angle, e.pulse, tol)
+               /\ bad' = IF d # "" /\ ~kn THEN d ELSE InvDiff(cal, e.angle, e.pulse, tol)
+               /\ known' = IF kn THEN known \cup {"servo-negative-angle-rounds-toward-zero"} ELSE known
          /\ l' = l + 1 /\ UNCHANGED <<tid, side, cal>>
 Done == bad # "" \/ l > Len(T.ev)
-Verdict == Done => PrintT(ToJson([id |-> T.id, ok |-> bad = "", l |-> l - 1, clause |-> bad]))
+Verdict == Done => PrintT(ToJson([id |-> T.id, ok |-> bad = "", l |-> l - 1, clause |-> bad, known |-> known]))
 =============================================================================
